@@ -237,11 +237,22 @@ def accumulator(chk, fn, rule='C19-R3'):
                 adds.append(Add(n, t[0], t[1]))
             else:
                 others.append(n)
-    ok_init = len(inits) == 1 and isinstance(inits[0].value, ast.Call) and len(inits[0].value.args) == 1 \
-        and unparse(inits[0].value.args[0]) == 'offset'
-    chk.check(ok_init and not others, rule, UTIL, f, 'accumulator starts at dtype(offset) and is only advanced by += arr[.]',
+    # the start value: the offset in the output type -- except a FLOAT offset into an INTEGER output, which is kept (F40): the partial sums
+    # start from the offset and are converted on the store, like float terms; `dtype(offset)` truncated it before the first addition
+    ok_init, why_init = False, ''
+    if len(inits) == 1 and isinstance(inits[0].value, ast.Call) and isinstance(inits[0].value.func, ast.Name) and inits[0].value.args \
+            and unparse(inits[0].value.args[0]) == 'offset' and not inits[0].value.keywords:
+        c0 = inits[0].value
+        if c0.func.id == 'dtype' and len(c0.args) == 1:
+            why_init = ('total = dtype(offset): a fractional offset into an integer output is truncated before the first addition '
+                        '(offset 0.5, terms [0.5, 0.5, 0.5] into int64: [0, 0, 1, 1] / 1.5 instead of [0, 1, 1, 2] / 2.0)')
+        elif len(c0.args) == 2:
+            ok_init, why_init = _typed_start_helper(chk.src, c0.func.id, c0.args[1], fn)
+        else:
+            why_init = f'start value {unparse(c0)[:50]} not understood'
+    chk.check(ok_init and not others, rule, UTIL, f, 'accumulator starts at the offset (in the output type, a float offset into an integer output kept) and is only advanced by += arr[.]',
               f'init={unparse(inits[0]) if inits else None}; adds={[unparse(a.node) for a in adds]}',
-              f'unexpected accumulator updates: init={[unparse(i) for i in inits]} others={[unparse(o) for o in others]}',
+              (why_init + '; ' if why_init else '') + f'accumulator updates: init={[unparse(i) for i in inits]} others={[unparse(o) for o in others]}',
               node=inits[0] if inits else fn)
     # element type of the accumulation.  Two ways to get it wrong, both seen: (F16) the plain `total += arr[i]` lets numba unify
     # uint64 + int64 to float64, rounding integer sums above 2**53; (F30) casting every term to the output type first,
@@ -320,25 +331,63 @@ def _typed_add_helper(src, name, like_arg, caller):
     # Evaluate the overload for every pairing of argument type classes: the function is a small decision procedure over
     # isinstance tests of its parameters, so it is interpreted (not pattern-matched) and the implementation it returns is
     # compared with the required one.  Anything the interpreter does not know makes the rule fail closed.
+    # (the running total is a float whenever a float offset went into an integer output: then nothing may be added in the output type)
     seen = 0
-    for xk in ('Integer', 'Boolean', 'Float'):
+    for tk in ('Integer', 'Float'):
+      for xk in ('Integer', 'Boolean', 'Float'):
         for lk in ('Integer', 'Float'):
+            if tk == 'Integer' and lk == 'Float':
+                continue                  # the total starts as T(offset): an integer total with a float output does not occur
             try:
-                clo = _Dispatch(mod, {ps[1]: xk, ps[2]: lk}, ps).call(ov, [_TypeOf(p) for p in ps])
+                clo = _Dispatch(mod, {ps[0]: tk, ps[1]: xk, ps[2]: lk}, ps).call(ov, [_TypeOf(p) for p in ps])
             except _NoEval as e:
-                return False, f'overload of {name} cannot be evaluated for x:{xk}, like:{lk}: {e}'
+                return False, f'overload of {name} cannot be evaluated for total:{tk}, x:{xk}, like:{lk}: {e}'
             if not isinstance(clo, _Closure):
-                return False, f'overload of {name} returns no implementation for x:{xk}, like:{lk}'
+                return False, f'overload of {name} returns no implementation for total:{tk}, x:{xk}, like:{lk}'
             expr = clo.returned(ps)
             if expr is None:
-                return False, f'implementation {clo.fn.name} for x:{xk}, like:{lk} is not a single returned expression'
-            want_int = xk in ('Integer', 'Boolean') and lk == 'Integer'
+                return False, f'implementation {clo.fn.name} for total:{tk}, x:{xk}, like:{lk} is not a single returned expression'
+            want_int = tk == 'Integer' and xk in ('Integer', 'Boolean') and lk == 'Integer'
             if want_int and expr not in ('T(total+T(x))', 'T(T(x)+total)'):
-                return False, f'for x:{xk}, like:{lk} the implementation returns {expr}, need T(total + T(x)) with T = type of like'
+                return False, f'for total:{tk}, x:{xk}, like:{lk} the implementation returns {expr}, need T(total + T(x)) with T = type of like'
             if not want_int and expr not in ('total+x', 'x+total'):
-                return False, f'for x:{xk}, like:{lk} the implementation returns {expr}, need total + x'
+                return False, (f'for total:{tk}, x:{xk}, like:{lk} the implementation returns {expr}, need total + x' +
+                               (' (a float running total -- a fractional offset into an integer output -- must not be truncated term by term)' if tk == 'Float' and lk == 'Integer' else ''))
             seen += 1
-    return seen == 6, ''
+    return seen == 9, ''
+
+
+def _typed_start_helper(src, name, like_arg, caller):
+    """`name(offset, like)`: overload returning `offset` itself for (offset float, like integer) and `T(offset)` (T = type of like) otherwise."""
+    mod = src.tree(UTIL)
+    la = unparse(like_arg)
+    if la != 'dtype(0)':
+        ds = [n for n in walk_no_nested(caller) if isinstance(n, ast.Assign) and len(n.targets) == 1 and unparse(n.targets[0]) == la]
+        if not (len(ds) == 1 and unparse(ds[0].value) in ('dtype(0)', 'out.dtype.type(0)')):
+            return False, f'second argument {la} of {name} is not a scalar of the output type'
+    ovs = [n for n in mod.body if isinstance(n, ast.FunctionDef) and any(isinstance(d, ast.Call) and dotted(d.func).split('.')[-1] == 'overload' and d.args
+                                                                         and unparse(d.args[0]) == name for d in n.decorator_list)]
+    if len(ovs) != 1:
+        return False, f'{len(ovs)} numba overloads of {name} found'
+    ov = ovs[0]
+    ps = [a.arg for a in ov.args.args]
+    if len(ps) != 2:
+        return False, f'overload of {name} does not take (offset, like)'
+    for ok_ in ('Integer', 'Boolean', 'Float'):
+        for lk in ('Integer', 'Float'):
+            try:
+                clo = _Dispatch(mod, {ps[0]: ok_, ps[1]: lk}, ps + ['<none>']).call(ov, [_TypeOf(p) for p in ps])
+            except _NoEval as e:
+                return False, f'overload of {name} cannot be evaluated for offset:{ok_}, like:{lk}: {e}'
+            if not isinstance(clo, _Closure):
+                return False, f'overload of {name} returns no implementation for offset:{ok_}, like:{lk}'
+            expr = clo.returned2(ps)
+            keep = ok_ == 'Float' and lk == 'Integer'
+            if keep and expr != 'offset':
+                return False, f'for a float offset into an integer output the start value is {expr}, need the offset itself'
+            if not keep and expr != 'T(offset)':
+                return False, f'for offset:{ok_}, like:{lk} the start value is {expr}, need T(offset) with T = type of like'
+    return True, ''
 
 
 class _NoEval(Exception):
@@ -386,6 +435,28 @@ class _Closure:
         import copy
         e = Sub().visit(clone_pos(body[-1].value))
         return unparse(e).replace(' ', '')
+
+
+def _returned2(self, ovparams):
+    ps = [a.arg for a in self.fn.args.args]
+    body = [n for n in self.fn.body if not (isinstance(n, ast.Expr) and isinstance(n.value, ast.Constant))]
+    if len(ps) != 2 or len(body) != 1 or not isinstance(body[0], ast.Return) or body[0].value is None:
+        return None
+    canon = dict(zip(ps, ('offset', 'like')))
+    env = self.env
+
+    class Sub(ast.NodeTransformer):
+        def visit_Name(s, n):
+            if n.id in canon:
+                return ast.Name(id=canon[n.id], ctx=ast.Load())
+            v = env.get(n.id)
+            if isinstance(v, _TypeOf):
+                return ast.Name(id='T' if v.param == ovparams[1] else f'typeof_{v.param}', ctx=ast.Load())
+            return n
+    return unparse(Sub().visit(clone_pos(body[0].value))).replace(' ', '')
+
+
+_Closure.returned2 = _returned2
 
 
 class _Dispatch:
